@@ -434,6 +434,25 @@ func level2() {
 							res.Add("transitions", 1)
 							res.Add("traces_validated_against_impl", 1)
 							l2judge(s, n, H, L, rt.name, sp, r, bes)
+							if sp == "m1" && n == 2 {
+								// the same request with a long conversation: 1.2 MB of content, the model named before it and
+								// after it (JSON members have no order) - routing must honour the name wherever it stands
+								pad := strings.Repeat("lorem ipsum ", 100000)
+								for _, big := range []string{
+									fmt.Sprintf(`{"model":%q,"max_tokens":16,"messages":[{"role":"user","content":%q}]}`, sp, pad),
+									fmt.Sprintf(`{"max_tokens":16,"messages":[{"role":"user","content":%q}],"model":%q}`, pad, sp)} {
+									for _, b := range bes {
+										b.Reset()
+									}
+									r := stack.Do(o.Addr, &stack.Req{Method: "POST", Target: rt.target, Body: []byte(big), Headers: [][2]string{{"Content-Type", "application/json"}, {"anthropic-version", "2023-06-01"}}})
+									res.Add("evaluations", 1)
+									res.Add("transitions", 1)
+									res.Add("traces_validated_against_impl", 1)
+									bigBody = true
+									l2judge(s, n, H, L, rt.name, sp, r, bes)
+									bigBody = false
+								}
+							}
 						}
 					}
 				}
@@ -446,6 +465,9 @@ func level2() {
 	}
 }
 
+// bigBody marks the judgements of the 1.2 MB requests (witness)
+var bigBody bool
+
 func l2judge(s strat, n, H, L int, route, sp string, r *stack.Resp, bes []*stack.Backend) {
 	var all []*domain.Endpoint
 	for i := 0; i < n; i++ {
@@ -454,6 +476,10 @@ func l2judge(s strat, n, H, L int, route, sp string, r *stack.Resp, bes []*stack
 	cell := fmt.Sprintf("L2 route=%s strategy=%s n=%d healthy={%s} lists={%s} model=%q", route, s, n, names(subset(H, all)), names(subset(L, all)), sp)
 	rp := map[string]any{"engine": "stack", "cell": cell}
 	wit := map[string]any{"level": "L2", "route": route, "strategy": s.typ, "fallback": s.fallback}
+	if bigBody {
+		cell += " (1.2 MB body)"
+		wit["body"] = "1.2MB"
+	}
 	det := cell + "\nclient: " + r.String()
 	res.SetAdd("states", fmt.Sprintf("%s|%d|%s", cell, r.Status, r.Header.Get("X-Olla-Endpoint")))
 	recv := -1
